@@ -119,6 +119,22 @@ theorem C15_sess_held (ls : List Lbl) (id : Nat) :
     simp only [hm, if_true] at hb
     omega
 
+/-- **Source pin**: the `defaultBufferPool.Get/Put` call sites the extractor finds in the repository
+(regenerated into `Gen.poolSites` on every check) are exactly the sites the instrumented models cover —
+kcp.go by `Model/KcpOwn` (`newSegment`, `parse_data`, `recycleSegment`), fec.go by `Model/FecOwn`
+(`decode`: packet copy, new buffers, re-tune, failed reconstruction, popped packets; `discardShards`)
+with the caller's `Put(r)` in `kcpInput`, sess.go by `Model/SessOwn` (output callback in
+`newUDPSession`, `SendOOB`, `postProcess`).  A new or removed site in the code breaks this theorem. -/
+theorem C15_pool_sites_covered :
+    Gen.poolSites.map (fun s => (s.fn, s.op, s.idx)) =
+      [("KCP.newSegment", "Get", 0), ("KCP.parse_data", "Get", 0), ("KCP.recycleSegment", "Put", 0),
+       ("UDPSession.SendOOB", "Get", 0), ("UDPSession.SendOOB", "Put", 0), ("UDPSession.SendOOB", "Put", 1),
+       ("UDPSession.kcpInput", "Put", 0),
+       ("UDPSession.postProcess", "Get", 0), ("UDPSession.postProcess", "Get", 1), ("UDPSession.postProcess", "Put", 0),
+       ("fecDecoder.decode", "Get", 0), ("fecDecoder.decode", "Get", 1), ("fecDecoder.decode", "Put", 0),
+       ("fecDecoder.decode", "Put", 1), ("fecDecoder.decode", "Put", 2), ("fecDecoder.discardShards", "Put", 0),
+       ("newUDPSession", "Get", 0), ("newUDPSession", "Put", 0)] := by decide
+
 -- two datagrams queued, the first transmitted with one dup and two parity copies in a batch with the
 -- second; a third is dropped in the die arm; an OOB packet refused by the full channel
 example : (run {} [.output .enq, .output .enq, .ppRecv 1 2 false, .ppRecv 0 0 true, .output .dieArm,
